@@ -43,7 +43,7 @@ fn ldro_rule_sx1276() {
     }
 }
 
-//@h id=ldro_bit_sx1276 props=C15,C13 tier=quick build=phy cost=120 timeout=1200
+//@h id=ldro_bit_sx1276 props=C15,C13 tier=thorough build=phy cost=900 timeout=3000
 //@bounds SX1276 set_modulation_params with the LDRO flag symbolic (SF12/125 kHz, any CR), arbitrary prior register contents: RegModemConfig3 bit 3 equals the flag
 //@encodes Sx1276::set_modulation_params
 #[kani::proof]
